@@ -124,6 +124,12 @@ func runCorpus(p part, c *ctx) {
 					if mode == 0 {
 						out.count("corpus_instructions", 1)
 						out.dist("corpus_opcode", snap.Format+"/"+snap.Name)
+						if snap.IsSdwa {
+							out.count("corpus_sdwa_instructions", 1)
+						}
+						if snap.Size == 8 && (snap.Format == "sop2" || snap.Format == "sop1" || snap.Format == "sopc" || snap.Format == "vop1" || snap.Format == "vop2" || snap.Format == "vopc") && !snap.IsSdwa {
+							out.count("corpus_literal_instructions", 1)
+						}
 						reencode(c, arch, o.Inst, snap, code[pc:pc+snap.Size], kid, pc)
 					}
 					pc += snap.Size
